@@ -1188,6 +1188,18 @@ fn closure_of(e: &syn::Expr) -> Option<syn::ExprClosure> {
     }
 }
 
+/// an iterator adapter's argument: a closure, or a function path, which is its own eta-expansion `|__p| PATH(__p)`
+fn adapter_fn_of(e: &syn::Expr) -> Option<syn::ExprClosure> {
+    match e {
+        syn::Expr::Closure(c) => Some(c.clone()),
+        syn::Expr::Path(p) if p.path.segments.len() >= 2 => {
+            let c: syn::Expr = syn::parse_quote!(|__p| #p(__p));
+            match c { syn::Expr::Closure(c) => Some(c), _ => None }
+        }
+        _ => None,
+    }
+}
+
 fn has_return(e: &syn::Expr) -> bool {
     struct V(bool);
     impl<'ast> syn::visit::Visit<'ast> for V {
@@ -1209,9 +1221,9 @@ fn parse_adapters(e: &syn::Expr) -> Option<(ChainSrc, Vec<Adapter>)> {
             syn::Expr::MethodCall(mc) => {
                 let m = mc.method.to_string();
                 match (m.as_str(), mc.args.len()) {
-                    ("map", 1) => closure_of(&mc.args[0]).map(|c| (Adapter::Map(c), (*mc.receiver).clone())),
-                    ("filter", 1) => closure_of(&mc.args[0]).map(|c| (Adapter::Filter(c), (*mc.receiver).clone())),
-                    ("filter_map", 1) => closure_of(&mc.args[0]).map(|c| (Adapter::FilterMap(c), (*mc.receiver).clone())),
+                    ("map", 1) => adapter_fn_of(&mc.args[0]).map(|c| (Adapter::Map(c), (*mc.receiver).clone())),
+                    ("filter", 1) => adapter_fn_of(&mc.args[0]).map(|c| (Adapter::Filter(c), (*mc.receiver).clone())),
+                    ("filter_map", 1) => adapter_fn_of(&mc.args[0]).map(|c| (Adapter::FilterMap(c), (*mc.receiver).clone())),
                     ("enumerate", 0) => Some((Adapter::Enumerate, (*mc.receiver).clone())),
                     ("peekable", 0) => {
                         // peeking a collected Vec is looking at its first element: the adapter itself is the identity
